@@ -170,21 +170,21 @@ func (l *queryLog) search(
 	return entries, oldest
 }
 
-// seekRecord changes the current position to the next record older than the
-// provided parameter.
+// seekRecord changes the current position so that the following reads return
+// all records older than the provided parameter.  The first record read may be
+// not older than it, see below.
 func (r *qLogReader) seekRecord(ctx context.Context, olderThan time.Time) (err error) {
 	if olderThan.IsZero() {
 		return r.SeekStart()
 	}
 
-	err = r.seekTS(ctx, olderThan.UnixNano())
-	if err == nil {
-		// Read to the next record, because we only need the one that goes
-		// after it.
-		_, err = r.ReadNext()
-	}
-
-	return err
+	// Don't skip the record the reader is positioned at.  It is the one with
+	// the requested timestamp only when that record is still on disk; when the
+	// timestamp is newer than everything on disk (e.g. it belongs to an entry
+	// that is still in the memory buffer), the reader is positioned at the
+	// newest record, which must be returned.  Records that aren't older than
+	// olderThan are discarded by [searchParams.match] anyway.
+	return r.seekTS(ctx, olderThan.UnixNano())
 }
 
 // setQLogReader creates a reader with the specified files and sets the
